@@ -24,6 +24,27 @@ func init() {
 		},
 	})
 	register(&Property{
+		ID: "C32",
+		Explanation: "Decides ordering, error flow and the skip test of copy, not tree equality: (copy-order) in copyTreeBatched the snapshots of a batch are saved only after the WithBlobUploader session that copied their trees returned nil (so an interrupted copy leaves no destination snapshot without data), an error of copyTree fails that session, copyTree is given *sn.Tree, it returns the errors of StreamTrees and CopyBlobs and copies only after the traversal succeeded; copySaveSnapshot saves into the destination with sn.Original set — kept if present, otherwise the source snapshot's ID; (similar-snapshots) similarSnapshots reads every persistent field of data.Snapshot (enumerated from the struct; exceptions Parent, Original, ProgramVersion, Summary, id) and collectAllSnapshots skips a source snapshot only behind similarSnapshots==true for a destination snapshot found under the same Original/ID key (or after yielding a load error); visited-set (C42) covers the tree traversal of copyTree. Not decided: that CopyBlobs transfers exactly the collected blobs, content equality after restore, and idempotence when destination snapshots were edited.",
+		Assumptions: commonAssumptions,
+		Technique:   "static analysis: CFG ordering cuts + path-sensitive error propagation + struct-field coverage (go/ssa, go/types)",
+		Run: func(c *eng.Ctx) {
+			ruleCopyOrder(c)
+			ruleSimilarSnapshots(c)
+			ruleVisitedSet(c)
+		},
+		Controls: []Control{
+			{Name: "snapshots-saved-inside-upload-session", File: "cmd/restic/cmd_copy.go",
+				Old: "				debug.Log(\"tree copied\")\n				batchSize += sizeBlobs", New: "				debug.Log(\"tree copied\")\n				if err := copySaveSnapshot(ctx, sn, dstRepo, printer); err != nil {\n					return err\n				}\n				batchSize += sizeBlobs", Rule: "copy-order"},
+			{Name: "copyblobs-error-downgraded", File: "cmd/restic/cmd_copy.go",
+				Old: "	if err != nil {\n		return 0, errors.Fatalf(\"%s\", err)\n	}\n	return sizeBlobs, nil", New: "	if err != nil {\n		printer.E(\"%s\", err)\n	}\n	return sizeBlobs, nil", Rule: "copy-order"},
+			{Name: "original-overwritten", File: "cmd/restic/cmd_copy.go",
+				Old: "	if sn.Original == nil {\n		sn.Original = sn.ID()\n	}", New: "	sn.Original = sn.ID()", Rule: "copy-order"},
+			{Name: "similar-ignores-hostname", File: "cmd/restic/cmd_copy.go",
+				Old: " || sna.Hostname != snb.Hostname ||", New: " ||", Rule: "similar-snapshots"},
+		},
+	})
+	register(&Property{
 		ID: "C28",
 		Explanation: "Decides the totality clause only ('no pattern or path causes a panic', errors are reported), not the glob semantics: (pattern-totality) every call of preparePattern, which reads patternStr[0], lies behind a non-empty test of that string (Match, ChildMatch, ParsePatterns); in both CollectPatterns functions each matcher constructor is reached only after ValidatePatterns succeeded on the same list, and patterns read from files are validated before they are merged into the option lists; the case-insensitive constructors build their matcher from strings.ToLower of every pattern and apply ToLower to the item; list ends with the error of match / childMatch / prepareStr, match with the error of filepath.Match, and prepareStr splits only non-empty paths. Not decided: that `**`, relative patterns, directory coverage and negation behave as documented, that childMatch is never false when a descendant matches, and the index arithmetic inside match (expansion of `**`).",
 		Assumptions: commonAssumptions,
